@@ -174,11 +174,12 @@ deriving DecidableEq, Repr, Inhabited
     `Ellipsis`, literal values and `Annotated` metadata; these are the leaf
     constructors.  Derived (structural) equality is exactly the real `__eq__`:
     `_BasicNormType.__eq__` compares `(origin, args)`, `_LiteralNormType.__eq__`
-    compares `(type, value)` sequences (typed `LitVal`), `NormTV.__eq__`
-    compares the variable only. -/
+    compares `(type, value)` sequences (typed `LitVal`).  A `NormTV` is the node
+    whose origin is the variable and whose args are empty: `NormTV.__eq__`/
+    `__hash__` look at the variable only, `.origin` is the variable, `.args` is
+    `()`, and an object is never both a TypeVar and a class. -/
 inductive Norm (α : Type) where
   | node (o : Origin α) (args : List (Norm α))
-  | tv (a : α)
   | ellipsis
   | lit (v : LitVal α)
   | mdata (m : Str)
@@ -200,7 +201,6 @@ mutual
     arg `(str(obj), 0, [])`. -/
 def orderKey {α : Type} (W : World α) : Norm α → OKey
   | .node o args => .mk (originKey W o).1 (originKey W o).2 (orderKeyList W args)
-  | .tv a => .mk (W.str a) (W.ident a) []
   | .ellipsis => .mk W.ellipsisText 0 []
   | .lit v => litKey W v
   | .mdata m => .mk m 0 []
